@@ -1354,7 +1354,16 @@ def fam_blocks(chk, impl, tier):
                 ents.append(rng.randint(-n, n - 1) if rng.random() < 0.92 else rng.choice([n, -n - 1]))
             elif r < 0.45 and not used_list:
                 used_list = True
-                ents.append([rng.randint(-n, n - 1) for _ in range(rng.randint(1, 3))])
+                lst = [rng.randint(-n, n - 1) for _ in range(rng.randint(1, 3))]
+                form = rng.choice(["list", "list", "ndarray", "bool"])
+                if form == "ndarray":
+                    lst = np.array(lst)
+                elif form == "bool":
+                    lst = np.array([rng.random() < 0.6 for _ in range(n)])
+                    if not lst.any():
+                        lst[rng.randrange(n)] = True
+                chk.count("blocks:list-form:" + form)
+                ents.append(lst)
             elif r < 0.6:
                 ents.append(slice(None))
             else:
@@ -1368,8 +1377,8 @@ def fam_blocks(chk, impl, tier):
         def oracle():
             # selected block numbers per axis, by NumPy indexing of the block grid; ints keep the axis
             t = list(as_tuple(idx))
-            if Ellipsis in t:
-                j = t.index(Ellipsis)
+            if any(e is Ellipsis for e in t):
+                j = [i for i, e in enumerate(t) if e is Ellipsis][0]
                 t = t[:j] + [slice(None)] * (len(nb) - (len(t) - 1)) + t[j + 1:]
             t = t + [slice(None)] * (len(nb) - len(t))
             if len(t) > len(nb):
@@ -1398,6 +1407,39 @@ def fam_blocks(chk, impl, tier):
                               signature={"path": "blocks", "class": "empty-selection"})
             continue
         judge(chk, "blocks", data, got, gerr, want, werr)
+
+
+def fam_blocks_multi_list(chk, impl):
+    """`.blocks` with SEVERAL list-like indices (Python lists, integer arrays, boolean arrays in every combination): NumPy would select
+    point-wise, which is not a block grid; the implementation documents a refusal (ValueError).  Returning data (e.g. the outer
+    product of the two selections) is 'wrong data instead of raising'."""
+    a = base_array((6, 8))
+    chunks = ((2, 2, 2), (3, 3, 2))
+    x = impl.arr(a, chunks)
+    forms = {"list": lambda v: list(v), "ndarray": lambda v: np.array(v), "bool": lambda v: np.array([i in [k % 3 for k in v] for i in range(3)])}
+    for f0 in forms:
+        for f1 in forms:
+            for v0, v1 in (([0, 2], [1, 0]), ([1], [2]), ([0, 1], [0, 1]), ([2, 0, 1], [1, 1, 0])):
+                idx = (forms[f0](v0), forms[f1](v1))
+                got, gerr = da_eval(lambda: x.blocks[idx])
+                data = {"fn": "blocks", "shape": (6, 8), "chunks": chunks, "index": idx_repr(idx), "forms": (f0, f1)}
+                chk.count(f"blocks-multi-list:{f0}+{f1}")
+                chk.case(("blocks-multi-list", f0, f1, repr(v0), repr(v1)), nontrivial=True, sample=data)
+                if gerr is not None:
+                    chk.traces_validated += 1
+                    continue
+                # point-wise selection of single blocks is expressible only when it is also the outer product: one block each
+                pw = None
+                if len(np.atleast_1d(np.arange(3)[idx[0]])) == 1 and len(np.atleast_1d(np.arange(3)[idx[1]])) == 1:
+                    b0, b1 = int(np.arange(3)[idx[0]][0]), int(np.arange(3)[idx[1]][0])
+                    o0, o1 = np.concatenate([[0], np.cumsum(chunks[0])]), np.concatenate([[0], np.cumsum(chunks[1])])
+                    pw = a[o0[b0]:o0[b0 + 1], o1[b1]:o1[b1 + 1]]
+                if pw is not None and same(got, pw):
+                    chk.traces_validated += 1
+                    continue
+                chk.violation("blocks: several list-like indices are accepted and data is returned (the outer product of the selections) "
+                              "instead of the documented refusal; NumPy semantics on the block grid would select point-wise",
+                              {**data, "got_shape": got.shape}, signature={"path": "blocks", "class": "multi-list-accepted", "forms": f"{f0}+{f1}"})
 
 
 def fam_unknown(chk, impl, tier):
@@ -1608,4 +1650,5 @@ def run(chk: Check):
     fam_daskint_multi(chk, impl, chk.tier)
     fam_vindex(chk, impl, chk.tier)
     fam_blocks(chk, impl, chk.tier)
+    fam_blocks_multi_list(chk, impl)
     fam_unknown(chk, impl, chk.tier)
